@@ -17,7 +17,7 @@ import (
 // tag "unit").
 //
 // Kept out on purpose: RunnerManager.Add concurrent with Run (documented as
-// outside the property). AddCloser is only called once a runner has started,
+// outside the property). Concurrent Add calls BEFORE Run are in. AddCloser is only called once a runner has started,
 // i.e. during the run; AddCloser racing the Run CALL itself is the opt-in
 // sub-workload c12-addcloser-at-start (see NOTES.md).
 
@@ -30,7 +30,7 @@ var _ io.Closer = closerObj{}
 func init() {
 	register(&workload{
 		name: "c12", property: "C12",
-		rule: "per round ONE RunnerCloserManager (grace period unset on even rounds, one hour otherwise; fatal action replaced by a recorder) with 3 runners (one ends with context.Canceled, one with an error once cancelled, one returns nil or an error when triggered or cancelled) and 4 closers of the four accepted types registered up front (two return errors); once all runners have started: AddCloser from 2 goroutines, Close from 3 goroutines, the trigger and (every third round) cancellation of Run's context, all at once; every fourth round instead Close before Run. Plus ONE RunnerManager with 3 runners and Run called from 2 goroutines. Checked: no closer before the last runner returned, each registered closer invoked exactly once (an AddCloser that reported ErrManagerAlreadyClosed: never), Run and every Close return the same error joining exactly the expected errors, the fatal action never fires, a second Run is refused, Close before Run returns at once and prevents Run, exactly one of two concurrent RunnerManager.Run calls runs the runners, everything returns.",
+		rule: "per round ONE RunnerCloserManager (grace period unset on even rounds, one hour otherwise; fatal action replaced by a recorder) with 3 runners (one ends with context.Canceled, one with an error once cancelled, one returns nil or an error when triggered or cancelled) and 4 closers of the four accepted types registered up front (two return errors); once all runners have started: AddCloser from 2 goroutines, Close from 3 goroutines, the trigger and (every third round) cancellation of Run's context, all at once; every fourth round instead Close before Run. Plus ONE RunnerManager with 3 runners and Run called from 2 goroutines, and ONE manager (plain / closer manager alternating) whose 7-8 runners are supplied by 4 goroutines calling Add(one or two runners) at the same time before Run. Checked: every runner whose Add returned nil is started exactly once, no closer before the last runner returned, each registered closer invoked exactly once (an AddCloser that reported ErrManagerAlreadyClosed: never), Run and every Close return the same error joining exactly the expected errors, the fatal action never fires, a second Run is refused, Close before Run returns at once and prevents Run, exactly one of two concurrent RunnerManager.Run calls runs the runners, everything returns.",
 		run:  func(s *sess) map[string]any { return runC12(s, false) },
 	})
 	register(&workload{
@@ -292,8 +292,80 @@ func runC12(s *sess, addAtStart bool) map[string]any {
 			g.fail("RunnerManager/addition-after-run-accepted", "Add after Run returned %v", err)
 		}
 		s.op(3)
+
+		// ---- runners supplied by several goroutines calling Add at the same
+		// time before Run (plain manager on even rounds, closer manager on odd
+		// ones): every runner whose Add returned nil is started exactly once ----
+		const adders, perAdd = 4, 2
+		var am interface {
+			Add(...concurrency.Runner) error
+			Run(context.Context) error
+		} = concurrency.NewRunnerManager()
+		if variant%2 == 1 {
+			am = concurrency.NewRunnerCloserManager(log, nil)
+		}
+		var aStarts [adders * perAdd]atomic.Int32
+		var addErrs [adders]error
+		var ag group
+		gate := make(chan struct{})
+		for a := 0; a < adders; a++ {
+			a := a
+			ag.Go("concurrent-add", func() {
+				rs := make([]concurrency.Runner, 0, perAdd)
+				for k := 0; k < perAdd-(a+variant)%2; k++ { // one or two runners per call
+					idx := a*perAdd + k
+					rs = append(rs, func(ctx context.Context) error {
+						aStarts[idx].Add(1)
+						if idx == 0 {
+							return nil // ends the run
+						}
+						<-ctx.Done()
+						return nil
+					})
+				}
+				<-gate
+				addErrs[a] = am.Add(rs...)
+				s.op(1)
+			})
+		}
+		close(gate)
+		if !ag.Wait() {
+			s.hang("concurrent RunnerManager.Add calls returning", round)
+			break
+		}
+		ag.flush(s, round)
+		arunCtx, acancel := context.WithCancel(context.Background())
+		var arg group
+		arg.Go("run-after-concurrent-adds", func() {
+			if err := am.Run(arunCtx); err != nil {
+				g.fail("RunnerManager/joined-error-wrong", "Run after concurrent Adds returned %v; every runner returns nil", err)
+			}
+			s.op(1)
+		})
+		if !arg.Wait() {
+			acancel()
+			s.hang("Run after concurrent Adds returning (runner 0 returns at once, the others end when cancelled)", round)
+			break
+		}
+		acancel()
+		arg.flush(s, round)
+		for a := 0; a < adders; a++ {
+			n := perAdd - (a+variant)%2
+			for k := 0; k < perAdd; k++ {
+				st := aStarts[a*perAdd+k].Load()
+				switch {
+				case addErrs[a] != nil:
+					g.fail("RunnerManager/addition-before-run-refused", "concurrent Add before Run: %v", addErrs[a])
+				case k < n && st != 1:
+					g.fail("RunnerManager/runner-not-started", "a runner whose Add (one of %d concurrent calls before Run) returned nil was started %d times", adders, st)
+				case k >= n && st != 0:
+					g.fail("RunnerManager/ran-more-or-less-than-once", "a runner that was never added was started %d times", st)
+				}
+			}
+		}
+		s.op(1)
 		g.flush(s, round)
 		done++
 	}
-	return map[string]any{"rounds": done, "goroutines_per_round": 17}
+	return map[string]any{"rounds": done, "goroutines_per_round": 22}
 }
